@@ -115,6 +115,10 @@ def is_set_expr(e: ast.AST, local_sets: Set[str], attrs: Set[str], funcs: Set[st
     if isinstance(e, ast.NamedExpr):
         return is_set_expr(e.value, local_sets, attrs, funcs)
     if isinstance(e, ast.BinOp) and isinstance(e.op, (ast.BitOr, ast.BitAnd, ast.Sub, ast.BitXor)):
+        def keys_view(x):
+            return isinstance(x, ast.Call) and isinstance(x.func, ast.Attribute) and x.func.attr in ("keys", "items") and not x.args
+        if keys_view(e.left) or keys_view(e.right):
+            return True     # dict views combined with a set operator give a set
         return is_set_expr(e.left, local_sets, attrs, funcs) or is_set_expr(e.right, local_sets, attrs, funcs)
     if isinstance(e, ast.Name):
         return e.id in local_sets
@@ -167,6 +171,10 @@ def body_sensitivity(py, loop: ast.For) -> Tuple[bool, str]:
                 return True, f"calls {last}() per element"
         if isinstance(n, ast.Attribute) and n.attr == "ident" and isinstance(n.ctx, ast.Load):
             return True, "reads .ident (first access fixes the ~N numbering)"
+        if isinstance(n, ast.Subscript) and isinstance(n.ctx, ast.Store) and isinstance(n.value, ast.Name):
+            # a dict filled in iteration order keeps that order (insertion order) for everyone who iterates or
+            # serialises it later
+            return True, f"inserts into the mapping `{n.value.id}` in iteration order (dicts keep insertion order)"
     return False, "body only performs commutative updates"
 
 
@@ -262,7 +270,7 @@ def r1_unordered_iteration(ctx, rep):
                 loops: List[Tuple[ast.AST, ast.AST, str]] = []
                 if isinstance(st, ast.For):
                     loops.append((st, st.iter, "for"))
-                elif isinstance(st, (ast.ListComp, ast.GeneratorExp)):
+                elif isinstance(st, (ast.ListComp, ast.GeneratorExp, ast.DictComp)):
                     for g in st.generators:
                         loops.append((st, g.iter, "comprehension"))
                 elif isinstance(st, ast.Call) and call_name(st) in ("list", "tuple") and st.args:
